@@ -41,8 +41,50 @@ func TestVerifC14ConnState(t *testing.T) {
 	bs := csLoad(t)
 	var mu sync.Mutex
 	evals, nontriv := 0, 0
+	retried := 0
 	csParallel(bs, 16, func(i int, b *csBeh) {
+		// verdict of one execution: "" = conforms
+		judge := func(o *csObs) (key, detail string, c vfRec) {
+			o.mu.Lock()
+			states := append([]string(nil), o.states...)
+			log := append([]string(nil), o.log...)
+			o.mu.Unlock()
+			c = vfRec{"behaviour": b, "observed": vfRec{"states": states, "log": log, "resps": o.resps, "problems": o.problems}}
+			for _, p := range o.problems {
+				return "C14:problem:" + csCfgKey(b.Cfg) + ":" + p, p, c
+			}
+			if !csEqStr(states, b.States) {
+				first := "none"
+				if f := csFlat(b); len(f) > 0 {
+					first = csReqKey(f[0])
+				}
+				return fmt.Sprintf("C14:states got=%v want=%v [rmu=%v serve=%v perIP=%v maxReqs=%d first=%s n=%d]", states, b.States, b.Cfg.Rmu, b.Cfg.ViaServe, b.Cfg.PerIP, b.Cfg.MaxReqs, first, b.Nreq),
+					fmt.Sprintf("ConnState callbacks %v, specification requires %v", states, b.States), c
+			}
+			if len(o.connIdentity) > 0 {
+				return fmt.Sprintf("C14:conn-identity [rmu=%v serve=%v perIP=%v]", b.Cfg.Rmu, b.Cfg.ViaServe, b.Cfg.PerIP), o.connIdentity[0], c
+			}
+			if msg := c14ActiveNeedsByte(b, log); msg != "" {
+				return fmt.Sprintf("C14:active-before-byte [rmu=%v serve=%v n=%d]", b.Cfg.Rmu, b.Cfg.ViaServe, b.Nreq), msg, c
+			}
+			return "", "", c
+		}
 		o := csRun(b)
+		key, detail, c := judge(o)
+		if key != "" && csTimeout(b) > 0 {
+			// scenarios with a silent client use real server timeouts; on a slow machine a
+			// timeout can fire in the middle of the client's script.  A genuine deviation
+			// persists with any timeout, so repeat with much longer ones before judging.
+			for _, scale := range []int{8, 40} {
+				o = csRunScaled(b, scale)
+				if key, detail, c = judge(o); key == "" {
+					break
+				}
+			}
+			mu.Lock()
+			retried++
+			mu.Unlock()
+		}
 		mu.Lock()
 		defer mu.Unlock()
 		evals++
@@ -52,32 +94,10 @@ func TestVerifC14ConnState(t *testing.T) {
 		if i%300 == 0 {
 			vfSample(vfRec{"cfg": b.Cfg, "batches": b.Batches, "expect_states": b.States, "observed_states": o.states})
 		}
-		c := vfRec{"behaviour": b, "observed": vfRec{"states": o.states, "log": o.log, "resps": o.resps, "problems": o.problems}}
-		for _, p := range o.problems {
-			vfViol("C14:problem:"+csCfgKey(b.Cfg)+":"+p, p, c)
-			return
-		}
-		o.mu.Lock()
-		states := append([]string(nil), o.states...)
-		log := append([]string(nil), o.log...)
-		o.mu.Unlock()
-		if !csEqStr(states, b.States) {
-			first := "none"
-			if f := csFlat(b); len(f) > 0 {
-				first = csReqKey(f[0])
-			}
-			vfViol(fmt.Sprintf("C14:states got=%v want=%v [rmu=%v serve=%v perIP=%v maxReqs=%d first=%s n=%d]", states, b.States, b.Cfg.Rmu, b.Cfg.ViaServe, b.Cfg.PerIP, b.Cfg.MaxReqs, first, b.Nreq),
-				fmt.Sprintf("ConnState callbacks %v, specification requires %v", states, b.States), c)
-			return
-		}
-		if len(o.connIdentity) > 0 {
-			vfViol(fmt.Sprintf("C14:conn-identity [rmu=%v serve=%v perIP=%v]", b.Cfg.Rmu, b.Cfg.ViaServe, b.Cfg.PerIP), o.connIdentity[0], c)
-			return
-		}
-		if msg := c14ActiveNeedsByte(b, log); msg != "" {
-			vfViol(fmt.Sprintf("C14:active-before-byte [rmu=%v serve=%v n=%d]", b.Cfg.Rmu, b.Cfg.ViaServe, b.Nreq), msg, c)
+		if key != "" {
+			vfViol(key, detail, c)
 		}
 	})
-	vfStat(evals, nontriv, nil)
+	vfStat(evals, nontriv, vfRec{"timeout_scenarios_repeated_with_longer_timeouts": retried})
 	vfDone()
 }
